@@ -151,6 +151,30 @@ theorem c16_receiver_step (c : RCfg) (r : Nat) (s : RState) (ev : REv) :
       split <;> simp
   · exact ⟨rfl, hnil⟩
 
+/-- **lifted to whole uploads**: for every event script the receiver with repeat count `r` goes through the
+same states as the one with repeat count 1 — so it accepts the same blocks, stores the same file and ends the
+same way — and every group of acknowledgements it emits is the group of the plain receiver with each ACK
+`r` times back to back -/
+theorem c16_receiver_run (c : RCfg) (r : Nat) (evs : List REv) :
+    (rRun { c with rep := r } evs).2 = (rRun { c with rep := 1 } evs).2 ∧
+    (rRun { c with rep := r } evs).1 = (rRun { c with rep := 1 } evs).1.map (·.flatMap (List.replicate r)) := by
+  have hfrom : ∀ (evs : List REv) (s : RState),
+      (rRunFrom { c with rep := r } s evs).2 = (rRunFrom { c with rep := 1 } s evs).2 ∧
+      (rRunFrom { c with rep := r } s evs).1 =
+        (rRunFrom { c with rep := 1 } s evs).1.map (·.flatMap (List.replicate r)) := by
+    intro evs
+    induction evs with
+    | nil => intro s; simp [rRunFrom]
+    | cons e es ih =>
+      intro s
+      obtain ⟨h1, h2⟩ := c16_receiver_step c r s e
+      simp only [rRunFrom, h1, h2, List.map_cons]
+      exact ⟨(ih _).1, by rw [(ih _).2]⟩
+  unfold rRun
+  have hi : rInit { c with rep := r } = rInit { c with rep := 1 } := rfl
+  rw [hi]
+  exact hfrom evs _
+
 /-- `--duplicate-packets n` is accepted by the configuration parser only below the bound of the source
 (`u8::MAX`), so `n + 1` fits the `u8` repeat count -/
 theorem c16_dup_bound : Gen.dupPacketsBound = 255 ∧ Gen.dupPacketsBound - 1 + 1 < 256 := by decide
